@@ -3,6 +3,7 @@ package main
 import (
 	"fmt"
 	"math/rand"
+	"runtime"
 	"strings"
 	"sync"
 	"time"
@@ -92,10 +93,21 @@ func childC17Seq(args []string) int {
 		}
 		var trace []traceEntry
 		exec1 := func(cs []wire.Cmd, mm *model.Map, tr *[]traceEntry) string {
+			type held struct{ live, copy []byte }
+			var retained []held
 			for _, c := range cs {
 				exp := expected(mm, c, true)
 				obs := handlerExec(h, c, 0)
 				d := diffResult(c, exp, obs, true)
+				// a response handed out earlier is the client's: later commands must not change it
+				for _, r := range retained {
+					if string(r.live) != string(r.copy) {
+						d = "a value returned by an earlier read changed after a later command (storage aliased with a response)"
+					}
+				}
+				for _, v := range obs.Values {
+					retained = append(retained, held{v.Data, append([]byte(nil), v.Data...)})
+				}
 				if strings.HasPrefix(obs.Class, "panic:") {
 					d = "handler panicked"
 				}
@@ -280,9 +292,39 @@ func childC17Conc(args []string) int {
 			m := model.New(now)
 			id := uint32(gi)<<20 | 1
 			<-start
+			// hot keys are read, touched and get-and-touched by every goroutine, but only their
+			// owner changes their value: the owner's model of them stays exact, whatever the others do
+			hot := func(j int) string { return fmt.Sprintf("hot.%d.%d", rep, j) }
+			nhot := 4
 			for i := 0; i < nops; i++ {
 				var c wire.Cmd
 				own := ns + fmt.Sprint(rng.Intn(4))
+				if rng.Intn(4) == 0 {
+					j := rng.Intn(nhot)
+					if j%ng == gi%nhot && gi < nhot {
+						own = hot(j) // this goroutine owns hot key j
+					} else {
+						// a foreign hot key: value-preserving commands only; results are not predictable
+						// here, but a value must not change while we hold it
+						fc := wire.Cmd{Op: []string{"get", "touch", "gat", "gete"}[rng.Intn(4)], Key: hot(j), Keys: []string{hot(j)}, TTL: 1000, Opaque: 1}
+						if fc.Op == "touch" || fc.Op == "gat" {
+							fc.Keys = nil
+						} else {
+							fc.Key = ""
+						}
+						r := handlerExec(h, fc, 0)
+						run.Count("concurrent_operations", 1)
+						for _, v := range r.Values {
+							cp := append([]byte(nil), v.Data...)
+							runtime.Gosched()
+							if string(cp) != string(v.Data) {
+								run.Violation("inmem|concurrent|a value returned by a read changes while the reader holds it", map[string]interface{}{"key": hot(j)})
+								return
+							}
+						}
+						continue
+					}
+				}
 				switch rng.Intn(10) {
 				case 0, 1, 2:
 					// read of a key that nobody ever wrote, or of entries that expired a second ago
